@@ -49,7 +49,7 @@ def run(rep):
     # default bulk methods inherited by the views (remove_matching / retain_matching are generic over matchers and
     # stream through closures: outside Verus; the recording-store harnesses above have no state to retain from)
     native.bounded_stand_in(rep, ID, "c11", [], "c11_views_over_real_stores",
-                            "union / partial-union / single-graph views vs filtering the store (triples, triples_matching, contains with 3 kinds of selectors), term enumerations of the union graph and of graph-as-dataset, read paths of graph-as-dataset over FastGraph and Vec (quads, quads_matching with 10 kinds of graph-name matchers, contains, graph_names: every triple is a quad of the default graph and of no other), insert / remove / remove_matching / retain_matching through a mutable single-graph view change that graph only (flag / count as the direct operation), mutations through graph-as-dataset",
+                            "union / partial-union / single-graph views vs filtering the store (triples, triples_matching with constant / several-constant / closure / negated / Any matchers in each position, contains with 3 kinds of selectors), term enumerations of the union graph and of graph-as-dataset, read paths of graph-as-dataset over FastGraph and Vec (quads, quads_matching with 10 kinds of graph-name matchers, contains, graph_names: every triple is a quad of the default graph and of no other), insert / remove / remove_matching / retain_matching through a mutable single-graph view change that graph only (flag / count as the direct operation), mutations through graph-as-dataset",
                             "660 datasets: every set of <= 3 quads over 2 subjects x 2 objects x 3 graph names, on FastDataset and Vec<Spog>; 4 graph shapes incl. quoted triples and generalized RDF for the enumerations",
                             "DatasetGraph / UnionGraph / PartialUnionGraph / GraphAsDataset incl. the MutableGraph / MutableDataset default methods they inherit (api/src/graph/adapter.rs, api/src/dataset/adapter.rs, api/src/graph.rs)",
                             "./check C11 --replay <this file>   # replay_src/c11")
